@@ -577,6 +577,99 @@ def case_subst(rng):
     return dict(kind="subst", stmts=stmts, meta=dict(n=n, body=body, locals=locals_, forms=forms, seq=seq_body))
 
 
+# argument values of every kind of the universe (not only integers), through every call form
+VAL_STRINGS = ["", "a", "ab", "abc", "hello foo", 'say "hi"', "h\u00e9llo w\u00f6rld", " "]
+VAL_SIZEABLE = VAL_STRINGS + [[], [1], [3, 1], [1, 2, 3], ["ab", "cd"], ["a", "bcd", ""], [[1, 2], [3, 4]], [[1], [2, 3]],
+                              0, 1, 7, -3, 100]
+VAL_ANY = VAL_SIZEABLE + [0.5, 2.5, 0.0]
+
+
+def _sz(p):
+    return ["op1", "#", ["p", p]]
+
+
+VAL_BODIES = {
+    # arity: [(body, needs sizeable arguments, inside the model)]
+    1: [(["p", "x"], False, True), (_sz("x"), True, True), (["cond", ["p", "x"], _sz("x"), ["int", 0]], True, True),
+        (["cond", ["p", "x"], ["int", 1], ["int", 2]], False, True),
+        (["op2", ",", ["p", "x"], ["val", "!"]], True, False), (["op2", ",", ["p", "x"], ["p", "x"]], True, False)],
+    2: [(["p", "y"], False, True), (["op2", "+", _sz("x"), _sz("y")], True, True),
+        (["cond", ["p", "x"], ["p", "y"], ["p", "x"]], False, True),
+        (["op2", ",", ["p", "x"], ["p", "y"]], True, False)],
+    3: [(["cond", ["p", "x"], ["p", "y"], ["p", "z"]], False, True),
+        (["op2", "+", _sz("x"), ["op2", "+", _sz("y"), _sz("z")]], True, True),
+        (["p", "z"], False, True), (["p", "y"], False, True)],
+}
+
+
+def _at_member_ok(a):
+    """can be written as a member of the list literal on the right of @ without changing its kind"""
+    return not isinstance(a, float)
+
+
+def case_values(rng):
+    """call form = substituted body for strings (empty, unicode), lists of strings, nested lists, reals"""
+    n = rng.choice([1, 1, 1, 2, 3])
+    body, sizeable, in_model = rng.choice(VAL_BODIES[n])
+    pool = VAL_SIZEABLE if sizeable else VAL_ANY
+    ftext = "{" + render(body) + "}"
+    stmts = list(PRELUDE) + ["f::" + ftext]
+    if n == 1:
+        stmts.append("ap::{x@y}")
+    if n == 3:
+        stmts.append("t3::f")
+    forms = []
+    for _ in range(rng.randrange(3, 7)):
+        args = [rng.choice(pool) if rng.random() < 0.75 else rng.choice(VAL_STRINGS) for _ in range(n)]
+        choices = ["direct", "literal", "var", "at", "at", "at"]
+        if n == 1:
+            choices += ["each", "ateach", "atparam", "atparam"]
+        if n == 2:
+            choices += ["over"]
+        if n == 3:
+            choices += ["atproj", "atproj"]
+        form = rng.choice(choices)
+        al = ";".join(lit_text(a) for a in args)
+        if form == "at" and n > 1 and not all(_at_member_ok(a) for a in args):
+            form = "direct"
+        if form == "direct":
+            text = f"f({al})"
+        elif form == "literal":
+            text = f"{ftext}({al})"
+        elif form == "var":
+            stmts.append("v::f")
+            text = f"v({al})"
+        elif form == "at":
+            if n == 1:
+                a = args[0]
+                how = rng.choice(["lit", "var"])
+                operand = lit_text(a) if not isinstance(a, list) else "[" + _lit_inner(a) + "]"
+                if how == "var":
+                    stmts.append("w::" + operand)
+                    operand = "w"
+                text = f"f@{operand}"
+            else:
+                text = "f@[" + " ".join(_lit_inner(a) for a in args) + "]"
+        elif form == "atparam":
+            a = args[0]
+            text = "ap(f;" + (lit_text(a) if not isinstance(a, list) else "[" + _lit_inner(a) + "]") + ")"
+        elif form == "atproj":
+            operand = lit_text(args[1]) if not isinstance(args[1], list) else "[" + _lit_inner(args[1]) + "]"
+            text = f"f({lit_text(args[0])};;{lit_text(args[2])})@{operand}"
+        elif form in ("each", "ateach"):
+            # a list member reached by Each would be spread by @ (its members are the arguments): atoms only there
+            ok = (lambda q: not isinstance(q, (float, list))) if form == "ateach" else (lambda q: not isinstance(q, float))
+            args = [rng.choice([q for q in pool if ok(q)]) for _ in range(rng.randrange(1, 4))]
+            text = ("f'" if form == "each" else "{f@x}'") + "[" + " ".join(_lit_inner(a) for a in args) + "]"
+        else:
+            args = [rng.choice([q for q in pool if not isinstance(q, float)]) for _ in range(rng.randrange(2, 4))]
+            text = "f/[" + " ".join(_lit_inner(a) for a in args) + "]"
+        forms.append(dict(form=form, idx=len(stmts), args=args))
+        stmts.append(text)
+    return dict(kind="subst", stmts=stmts, tie=in_model,
+                meta=dict(n=n, body=body, locals=[], forms=forms, seq=False, values=True))
+
+
 REC_TEMPLATES = [
     # (arity, body with .f, argument ranges)
     (2, ["cond", ["p", "x"], ["op2", "+", ["p", "y"], ["self", [["op2", "-", ["p", "x"], ["int", 1]], ["p", "y"]]]], ["int", 0]]),
@@ -1123,6 +1216,9 @@ def frame_check(ctx, case, o, may, what):
     return ok
 
 
+DIRECT_LIKE = ("direct", "literal", "var", "at", "atparam", "atproj")
+
+
 def oracle_subst(ctx, case, obs):
     m = case["meta"]
     forms = {f["idx"]: f for f in m["forms"]}
@@ -1133,7 +1229,7 @@ def oracle_subst(ctx, case, obs):
         if bad["text"].startswith("f::"):
             # the function could not even be defined although its body, with values for x y z, is a program
             f0 = forms[first]
-            if f0["form"] in ("direct", "literal", "var", "at"):
+            if f0["form"] in DIRECT_LIKE:
                 tw = Real()
                 for t in case["stmts"][:first]:
                     if not t.startswith("f::"):
@@ -1158,11 +1254,11 @@ def oracle_subst(ctx, case, obs):
         events = []
         big = False
         try:
-            if f["form"] in ("direct", "literal", "var", "at"):
+            if f["form"] in DIRECT_LIKE:
                 env = dict(zip(PARAMS, f["args"]))
                 tout, _ = twin.run(render(gsubst(body, env)))
                 events = list(twin.events)
-            elif f["form"] == "each":
+            elif f["form"] in ("each", "ateach"):
                 vals = []
                 tout = None
                 for a in f["args"]:
@@ -1191,8 +1287,8 @@ def oracle_subst(ctx, case, obs):
         except Unsupported:
             ctx.bump("oracle-skip")
             return
-        if (_DRV is not None and f["form"] in ("direct", "literal", "var", "at") and not locs
-                and all(isinstance(a, list) or a >= 0 for a in f["args"])):
+        if (_DRV is not None and case.get("tie", True) and f["form"] in DIRECT_LIKE and not locs
+                and all(isinstance(a, (list, str)) or (isinstance(a, (int, float)) and a >= 0) for a in f["args"])):
             # the reference semantics of the model (Klong.C03.subst) against the textual substitution
             try:
                 fn = _parse("{" + render(body) + "}")[0]
@@ -1212,7 +1308,7 @@ def oracle_subst(ctx, case, obs):
         ev_p = [ast_wire(e) for e in o["events"]]
         ev_t = [ast_wire(e) for e in events]
         key = "subst:" + f["form"]
-        cj = dict(case=_js(case), form=f, text=o["text"], substituted=render(gsubst(body, dict(zip(PARAMS, f["args"])))) if f["form"] in ("direct", "literal", "var", "at") else None)
+        cj = dict(case=_js(case), form=f, text=o["text"], substituted=render(gsubst(body, dict(zip(PARAMS, f["args"])))) if f["form"] in DIRECT_LIKE else None)
         if o["out"] != tout:
             ctx.oracle_fail(key, cj, tout, o["out"], "call form differs from the textually substituted body")
             return
@@ -1474,7 +1570,7 @@ def run_case(ctx, drv, case):
     """runs every statement on the real interpreter and on the model, compares, then evaluates the
     oracle of the case's kind on the real observations."""
     real = Real()
-    model = Model(drv) if drv else None
+    model = Model(drv) if drv and case.get("tie", True) else None
     for name, val in case.get("defs", {}).items():
         real.define(name, val)
         if model:
@@ -1515,7 +1611,13 @@ def run_case(ctx, drv, case):
         ctx.bump("tie-cases")
     oracle = ORACLES.get(case["kind"])
     if oracle:
-        oracle(ctx, case, obs)
+        try:
+            oracle(ctx, case, obs)
+        except common.Infra:
+            raise
+        except Exception as e:  # noqa: BLE001 - what the real code produced could not even be decoded
+            ctx.oracle_fail("harness:undecodable:" + case["kind"], dict(case=_js(case)), "observations the oracle can read",
+                            f"{type(e).__name__}: {e}", "the oracle could not evaluate what the real interpreter produced")
     ctx.count((case["kind"], tuple(case["stmts"])), nontrivial=len(case["stmts"]) >= 2)
     if ctx.hist.get("kind:" + case["kind"], 0) == 0 and case["kind"] != "hand":
         ctx.sample(dict(kind=case["kind"], stmts=case["stmts"][-5:], out=[o["out"][:60] for o in obs[-5:]]), limit=8)
@@ -1529,7 +1631,8 @@ def _sym(name):
 
 
 def _js(case):
-    return dict(kind=case["kind"], stmts=case["stmts"], defs=case.get("defs", {}), meta=case.get("meta", {}))
+    return dict(kind=case["kind"], stmts=case["stmts"], defs=case.get("defs", {}), meta=case.get("meta", {}),
+                tie=case.get("tie", True))
 
 
 # --------------------------------------------------------------------------- bare KlongContext
@@ -1709,6 +1812,8 @@ def run(ctx):
                 "logging branches, failing sub-expression at each of 11 positions x failing level x nesting depth <= 3 x "
                 "call style, declared locals; function verbs of Over / Each / Scan / Each-pair / Over-neutral over "
                 "matrix and rank-3 operands (named, lambda, projection, parameter-held) against explicit direct calls; "
+                "argument tuples of strings (empty, unicode), lists of strings, nested lists and reals through direct / "
+                "literal / variable / @ / parameter-held @ / projection @ / each / over; "
                 "histories of 60-200 failing calls followed by probes (recursion 30-90 deep) against a fresh "
                 "interpreter; bare KlongContext operation sequences. distinct = distinct statement "
                 "sequences; non-trivial = at least two statements")
@@ -1756,6 +1861,8 @@ def run(ctx):
             run_case(ctx, drv, case_locals(rng))
         for _ in range(250 if quick else 5000):
             run_case(ctx, drv, case_adverb(rng))
+        for _ in range(250 if quick else 5000):
+            run_case(ctx, drv, case_values(rng))
         for _ in range(3 if quick else 40):
             run_case(ctx, drv, case_history(rng, rng.randrange(70, 110) if quick else rng.randrange(60, 200)))
         # failing sub-expression: every (depth, failing level, position), call styles sampled
@@ -1800,7 +1907,7 @@ def replay(ctx, case):
             run_ctx_sequence(ctx, drv, ops, c["strict"], c["nsys"])
         elif "stmts" in c:
             run_case(ctx, drv, dict(kind=c.get("kind", "hand"), stmts=c["stmts"], defs=c.get("defs", {}),
-                                    meta=c.get("meta", {})))
+                                    meta=c.get("meta", {}), tie=c.get("tie", True)))
         else:
             run(ctx)
     finally:
